@@ -224,11 +224,29 @@ PROPS = {
             {"run": "^TestC19Race$", "shards": 4, "race": True, "timeout_quick": 600, "timeout_thorough": 3000},
         ],
     },
+    "C20": {
+        "plenctag": True,
+        "rule": ("Go source files rendered from a generated model: 1-5 struct declarations (top-level, generic, function-local, var of anonymous "
+                 "struct type, composite literal) with nested anonymous struct fields; fields single, multi-name, embedded (value and pointer), "
+                 "unexported, blank, referring to other generated structs; tags absent, other keys only (json/sql '-' and options), existing plenc "
+                 "(number, number+option, '-') alone or mixed with other keys, back-quoted and double-quoted, malformed (bad syntax, non-numeric "
+                 "plenc); comments between fields; x the flags -w -json -sql -private each true / false / default. The real binary, built from "
+                 "the tree under test on every run, is executed on a temp file. Oracle: never a Go panic trace / exit 2; on success the output "
+                 "parses, is a gofmt fixed point, equals the input once all tags are stripped from both, type-checks; per field (ASTs walked in "
+                 "parallel): untouchable fields (existing plenc, unexported under -private) keep their tag, eligible ones keep every other key "
+                 "in order and gain exactly one plenc key, '-' iff excluded by the sql/json options in force, else an integer above every index "
+                 "the struct had before and distinct within the resulting Go struct (multi-name fields expand to several fields); plenc builds "
+                 "a codec for every fully modelled top-level struct of the output; a second run changes nothing; -w=false leaves the file "
+                 "alone. Malformed tags (or a multi-name field that cannot get unique indexes) => non-zero exit with a message and the file "
+                 "unchanged. Non-trivial = a struct mixing tagged and untagged fields, a multi-name field, or a non-top-level declaration; "
+                 "distinct by case hash."),
+        "jobs": [{"run": "^TestC20$", "shards": 16, "quick_shards": 4, "timeout_quick": 600, "timeout_thorough": 3000}],
+    },
 }
 
 # Properties not (yet) claimed, with the reason. Kept current by hand.
 NOT_APPLICABLE = {p: "check not built yet in this commit (work in progress; the technique applies, see DESIGN.md)" for p in
-                  ["C20"]}
+                  []}
 
 # commits in /repo that add build-tag-guarded hooks
 HOOK_COMMITS = ["d7875c1"]
